@@ -183,7 +183,7 @@ func thr(p float64) uint64 {
 
 func newSched(cfg Config) *Sched {
 	if cfg.MaxSteps == 0 {
-		cfg.MaxSteps = 20_000_000
+		cfg.MaxSteps = 8_000_000
 	}
 	if cfg.HangAfter == 0 {
 		cfg.HangAfter = 600 * time.Second
